@@ -223,14 +223,17 @@ contract('parso.python.tokenize.FStringNode.open_parentheses', params={'self': F
                             'exp = ({pc} + 1, {fc})\ngot = (n.parentheses_count, n.format_spec_count)\n'
                             'return None if got == exp else "open_parentheses leaves depths %r, expected %r" % (got, exp)\n'))
 contract('parso.python.tokenize.FStringNode.close_parentheses', params={'self': FSN, 'character': 'str'},
+         # a format spec belongs to an open brace: the brace that closes finishes the spec of its field, shallower specs stay
+         # (the first version of this contract was read off the code -- 'unchanged unless the depth reaches 0' -- and so
+         # encoded the defect repaired by the fix for f"{x:{y:1}{z}}")
          ensures=['self.parentheses_count == old(self.parentheses_count) - 1',
-                  'implies(self.parentheses_count == 0, self.format_spec_count == 0)',
-                  'implies(self.parentheses_count != 0, self.format_spec_count == old(self.format_spec_count))'],
+                  'self.format_spec_count == min(old(self.format_spec_count), self.parentheses_count)',
+                  'implies(old(self.format_spec_count) <= old(self.parentheses_count), self.format_spec_count <= self.parentheses_count)'],
          modifies=['self.parentheses_count', 'self.format_spec_count'], props=['C09'],
          replay=dict(observe={'pc': 'self.parentheses_count', 'fc': 'self.format_spec_count'},
                      script='from parso.python.tokenize import FStringNode\nn = FStringNode("\'")\nn.parentheses_count = {pc}\n'
                             'n.format_spec_count = {fc}\nn.close_parentheses("}}")\n'
-                            'exp = ({pc} - 1, 0 if {pc} - 1 == 0 else {fc})\ngot = (n.parentheses_count, n.format_spec_count)\n'
+                            'exp = ({pc} - 1, min({fc}, {pc} - 1))\ngot = (n.parentheses_count, n.format_spec_count)\n'
                             'return None if got == exp else "close_parentheses leaves depths %r, expected %r" % (got, exp)\n'))
 contract('parso.python.tokenize.FStringNode.is_in_expr', params={'self': FSN}, returns='bool',
          ensures=['result == (self.parentheses_count > self.format_spec_count)'], props=['C09'],
